@@ -58,10 +58,11 @@ Theorem C04_failure_iff_error_diagnostic : forall c, disciplined c = true ->
   (fst (run c) = false <-> exists s, In s (snd (run c)) /\ s = SError).
 Proof. exact failure_iff. Qed.
 
-Theorem C04_discipline_needed :
-  (let c := CSeq (CEmit SWarning DUsed) COk in fst (run c) = false /\ has_error (snd (run c)) = false) /\
-  (let c := CSeq (CEmit SError DIgnored) COk in fst (run c) = true /\ has_error (snd (run c)) = true).
-Proof. exact (conj warning_as_failure_refuted ignored_error_refuted). Qed.
+(* every `.emit(` site of src/ whose diagnostic is a literal error!/warning!/info! macro respects the
+   discipline (gen/emitsites.py rescans the source on every run; the site that did not -- read_quad returning
+   the token of a warning -- was repaired by fix: commit c0f0ed5) *)
+Theorem C04_emit_sites_disciplined : sites_ok gen_emit_sites = true.
+Proof. vm_compute. reflexivity. Qed.
 
 (* (3) mapfile_tables_validated: every integer / padding letter of the signature parser has a size for which
        the blob decoder has a match arm, and on such signatures (arg0 first, only where the format has an
